@@ -1,4 +1,5 @@
 import Ccp.Proofs.Edit
+import Ccp.Proofs.EditLinks
 /-!
 # C06 — edits change exactly the targeted lines
 
@@ -17,6 +18,9 @@ Property theorems only; helper lemmas and the specification vocabulary live in
 * `matchCount n row` := number of `true` among the first `n` row entries;
 * `idsOf items` := the committed line numbers carried by the list elements, in order;
   `IdsDistinct items` := `(idsOf items).Nodup`; `IdsSub new old` := `(idsOf new).Sublist (idsOf old)`;
+* `Plain cfg ls` := no line of `ls` starts a banner and, under syntax ios, none starts a macro
+  (then the final parents are C02's `specParent`); `shiftAfter e p` := `if p ≤ e then p else p + 1`;
+  `rank keep j` := number of kept positions below `j` (`Ccp.Proofs.EditLinks`);
 * `Forest`, `ancestors` are the C03 vocabulary.
 
 All theorems are about `Ccp.Model.Edit.step`, for all states and payloads.  A state holds
@@ -313,6 +317,48 @@ theorem delete_spec_forest (s : S) (i : Nat) (hnf : NoFilter s) (hd : s.dirty = 
   rw [ht]
   exact ⟨delete_filter_forest hf s.texts i, delete_length_forest hf s.texts i hsz hi⟩
 
+/-- **`delete` keeps the parents of the surviving lines.**  State: no uncommitted change,
+C07's invariant, auto-commit on, blank lines kept, no banner / macro start in the config.
+With `dead` = line `i` and its descendants, `keep j` := `j ∉ dead` and `rank keep j` := the
+number of surviving lines before `j`: after `delete i` a surviving line `j` sits at
+`rank keep j` with its old text, its old parent survives too, and its new parent is the new
+position of its old parent — except possibly a comment whose directly preceding line was
+deleted (its attachment depends on the line above it, C02's legacy rule). -/
+theorem delete_keeps_parents (s : S) (i : Nat)
+    (hd : s.dirty = false) (hinv : FreshInv s) (ha : s.auto = true) (hig : s.cfg.ignoreBlank = false)
+    (hp : Plain s.cfg s.texts) (hi : i < s.texts.length) :
+    let dead := descendantsAndSelf s.tree i
+    let keep : Nat → Bool := fun j => !dead.contains j
+    let s' := (step s (.delete i)).1
+    s'.texts = eraseAll s.texts dead ∧
+    ∀ j, j < s.texts.length → keep j = true →
+      s'.texts[rank keep j]? = s.texts[j]? ∧
+      keep (parentOf s.tree j) = true ∧
+      (¬ (isComment s.cfg (s.texts.getD j []) = true ∧ ∃ j', j = j' + 1 ∧ keep j' = false) →
+        parentOf s'.tree (rank keep j) = rank keep (parentOf s.tree j)) := by
+  intro dead keep s'
+  obtain ⟨htree, _, _⟩ := hinv hd
+  have hg : ¬ (s.dirty = true ∨ s.items.length ≤ i) := by rw [hd, ← texts_length]; simp; omega
+  have hstep : (step s (.delete i)).1
+      = autoCommit { s with items := eraseAll s.items (descendantsAndSelf s.tree i), dirty := true } := by
+    simp [Edit.step, hg]
+  have hnew : (eraseAll s.items (descendantsAndSelf s.tree i)).map Item.text = eraseAll s.texts dead := by
+    rw [eraseAll_map, items_map_text]
+  have htree' : s'.tree = parse s.cfg (eraseAll s.texts dead) := by
+    show (step s (.delete i)).1.tree = _
+    rw [hstep, auto_tree_after s ha, hnew]
+  have htexts' : s'.texts = eraseAll s.texts dead := by
+    show (step s (.delete i)).1.texts = _
+    rw [hstep, edited_texts s (.inr hig), hnew]
+  have hmain := parse_delete s.cfg s.texts i hp hig
+  simp only at hmain
+  rw [← htree] at hmain
+  refine ⟨htexts', fun j hj hkj => ?_⟩
+  obtain ⟨r1, r2, r3⟩ := hmain.2 j hj hkj
+  rw [hmain.1] at r1
+  refine ⟨by rw [htexts']; exact r1, r2, fun hex => ?_⟩
+  rw [htree']; exact r3 hex
+
 /-! ## replace_text / re_sub -/
 
 /-- **`obj.replace_text(before, after)`** on the object `h`, currently at position `p` (also
@@ -406,6 +452,133 @@ theorem appendToFamily_child_level (s : S) (i : Nat) (txt : Str) (ind : Int) (ai
   have h9 := familyEndpoint_max hf i
   refine ⟨?_, by omega, h9.1, h9.2, h7⟩
   rw [h5, h6, Nat.min_eq_left (by omega)]
+
+/-- **A child-level `append_to_family` keeps every existing parent and makes the new line a
+child of the target.**  State: no uncommitted change, C07's invariant, auto-commit on,
+blank lines kept, no line of the config (nor the payload) starts a banner or — under syntax
+ios — a macro, so that the links are those of the indentation rule (C02).  Target `i` with
+children; payload `txt'` (after `familyText`) not at the target's own indent, not a comment;
+every direct child of `i` that is a configuration line is indented at least as deep as the
+payload (automatic for indent width 1, `appendToFamily_keeps_parents_width1`).  Then, with
+`e` the last line of `i`'s family: the texts are `take (e+1) ++ [txt'] ++ drop (e+1)`, the new
+line's parent is `i`, every line up to `e` keeps its parent, and every line after `e` keeps
+its parent, shifted by one where it lies after `e` — except possibly a comment directly
+after the insertion point (its attachment depends on the line above it, C02's legacy rule;
+the Python oracle excludes comments as well). -/
+theorem appendToFamily_keeps_parents (s : S) (i : Nat) (txt : Str) (ind : Int) (ai : Bool)
+    (hd : s.dirty = false) (hinv : FreshInv s) (ha : s.auto = true) (hig : s.cfg.ignoreBlank = false)
+    (hp : Plain s.cfg s.texts)
+    (hok : (step s (.appendToFamily i txt ind ai)).2 = .ok ())
+    (hk : children s.tree i ≠ [])
+    (h0 : cfi s.width (indentOf s.tree i) (familyText (indentOf s.tree i) s.width txt ind ai) ≠ some 0)
+    (hb : isBannerStart (familyText (indentOf s.tree i) s.width txt ind ai) = false)
+    (hm : s.cfg.ios = true → isMacroStart (familyText (indentOf s.tree i) s.width txt ind ai) = false)
+    (hxc : isComment s.cfg (familyText (indentOf s.tree i) s.width txt ind ai) = false)
+    (Hc : ∀ c, c ∈ children s.tree i → isConfigLine s.cfg (s.texts.getD c []) = true →
+      indent (familyText (indentOf s.tree i) s.width txt ind ai) ≤ indent (s.texts.getD c [])) :
+    let txt' := familyText (indentOf s.tree i) s.width txt ind ai
+    let e := familyEndpoint s.tree i
+    let s' := (step s (.appendToFamily i txt ind ai)).1
+    i ≤ e ∧ e < s.texts.length ∧
+    s'.texts = s.texts.take (e + 1) ++ txt' :: s.texts.drop (e + 1) ∧
+    parentOf s'.tree (e + 1) = i ∧
+    (∀ j, j ≤ e → parentOf s'.tree j = parentOf s.tree j) ∧
+    (∀ j, e < j → j < s.texts.length → ¬ (j = e + 1 ∧ isComment s.cfg (s.texts.getD j []) = true) →
+      parentOf s'.tree (j + 1) = shiftAfter e (parentOf s.tree j)) := by
+  intro txt' e s'
+  obtain ⟨htree, htexts, _⟩ := hinv hd
+  obtain ⟨_, h2, _, idx, h4, h5⟩ := step_appendToFamily_ok s i txt ind ai hok
+  obtain ⟨h6, h7⟩ := appendIndex_child_level _ _ _ _ idx hk h4 h0
+  have hforest : Forest s.tree := by rw [htree]; exact bootstrap_forest _ _
+  have hsz : s.tree.size = s.texts.length := by rw [T.size, ← htexts]
+  have he : e < s.tree.size := familyEndpoint_lt_size hforest (by rw [hsz, texts_length]; exact h2)
+  have hnew : (pyInsert s.items idx (fresh txt')).map Item.text
+      = s.texts.take (e + 1) ++ txt' :: s.texts.drop (e + 1) := by
+    rw [pyInsert_map, items_map_text, pyInsert_eq, insertPos_natCast, h6, Nat.min_eq_left (by omega)]
+    rfl
+  have htree' : s'.tree = parse s.cfg (s.texts.take (e + 1) ++ txt' :: s.texts.drop (e + 1)) := by
+    show (step s (.appendToFamily i txt ind ai)).1.tree = _
+    rw [h5, auto_tree_after s ha, hnew]
+  have hlt : indent (s.texts.getD i []) < indent txt' := by
+    have := cfi_one_lt _ _ _ h7
+    have hio : indentOf s.tree i = indent (s.texts.getD i []) := by rw [indentOf, ← htexts]
+    show indent (s.texts.getD i []) < indent (familyText (indentOf s.tree i) s.width txt ind ai)
+    omega
+  have hmain := parse_insert_child s.cfg s.texts i txt' hp hig hb hm (by rw [← htree]; exact hk) hxc hlt
+    (by rw [← htree]; exact Hc)
+  simp only at hmain
+  rw [← htree] at hmain
+  obtain ⟨r0, r1, r2, r3, r4, r5⟩ := hmain
+  refine ⟨r0, r1, ?_, ?_, ?_, ?_⟩
+  · show (step s (.appendToFamily i txt ind ai)).1.texts = _
+    rw [h5, edited_texts s (.inr hig), hnew]
+  · rw [htree']; exact r3
+  · intro j hj; rw [htree']; exact r4 j hj
+  · intro j h1 h2' h3; rw [htree']; exact r5 j h1 h2' h3
+
+/-- For indent width 1 (every syntax but nxos) the hypothesis on the children is automatic:
+a child-level payload is indented exactly one deeper than the target, and every
+configuration-line child of the target is indented deeper than the target. -/
+theorem appendToFamily_children_width1 (s : S) (i : Nat) (txt' : Str)
+    (hd : s.dirty = false) (hinv : FreshInv s) (hig : s.cfg.ignoreBlank = false) (hp : Plain s.cfg s.texts)
+    (hw : s.width = 1) (h1 : cfi s.width (indentOf s.tree i) txt' = some 1) :
+    ∀ c, c ∈ children s.tree i → isConfigLine s.cfg (s.texts.getD c []) = true →
+      indent txt' ≤ indent (s.texts.getD c []) := by
+  intro c hc _
+  obtain ⟨htree, htexts, _⟩ := hinv hd
+  have hst := parse_specTree s.cfg s.texts hp hig
+  rw [← htree] at hst
+  obtain ⟨hcs, hpc, hci⟩ := mem_children.mp hc
+  obtain ⟨lp, lj, e1, e2, _, _, e5, _⟩ := specTree_parent hst hcs (by omega)
+  rw [hpc] at e1
+  have g : ∀ (j : Nat) (l : Info), (s.texts.map (info s.cfg))[j]? = some l → l.indent = indent (s.texts.getD j []) := by
+    intro j l hl
+    simp only [List.getElem?_map, Option.map_eq_some_iff] at hl
+    obtain ⟨x, hx, rfl⟩ := hl
+    rw [List.getD_eq_getElem?_getD, hx]; rfl
+  rw [g i lp e1, g c lj e2] at e5
+  -- the payload is indented exactly one deeper than the target
+  have hx : indent txt' = indent (s.texts.getD i []) + 1 := by
+    have hlt := cfi_one_lt _ _ _ h1
+    unfold cfi at h1
+    rw [hw] at h1
+    dsimp only at h1
+    rw [indentOf, ← htexts] at h1 hlt
+    split at h1
+    · cases h1
+    · split at h1
+      · cases h1
+      · split at h1
+        · cases h1
+        · injection h1 with h1
+          have h11 : ((1 : Nat) : Int) = 1 := rfl
+          rw [h11, Int.tdiv_one] at h1
+          omega
+  omega
+
+/-- `appendToFamily_keeps_parents` for indent width 1, without the hypothesis on the children. -/
+theorem appendToFamily_keeps_parents_width1 (s : S) (i : Nat) (txt : Str) (ind : Int) (ai : Bool)
+    (hd : s.dirty = false) (hinv : FreshInv s) (ha : s.auto = true) (hig : s.cfg.ignoreBlank = false)
+    (hp : Plain s.cfg s.texts) (hw : s.width = 1)
+    (hok : (step s (.appendToFamily i txt ind ai)).2 = .ok ())
+    (hk : children s.tree i ≠ [])
+    (h0 : cfi s.width (indentOf s.tree i) (familyText (indentOf s.tree i) s.width txt ind ai) ≠ some 0)
+    (hb : isBannerStart (familyText (indentOf s.tree i) s.width txt ind ai) = false)
+    (hm : s.cfg.ios = true → isMacroStart (familyText (indentOf s.tree i) s.width txt ind ai) = false)
+    (hxc : isComment s.cfg (familyText (indentOf s.tree i) s.width txt ind ai) = false) :
+    let txt' := familyText (indentOf s.tree i) s.width txt ind ai
+    let e := familyEndpoint s.tree i
+    let s' := (step s (.appendToFamily i txt ind ai)).1
+    i ≤ e ∧ e < s.texts.length ∧
+    s'.texts = s.texts.take (e + 1) ++ txt' :: s.texts.drop (e + 1) ∧
+    parentOf s'.tree (e + 1) = i ∧
+    (∀ j, j ≤ e → parentOf s'.tree j = parentOf s.tree j) ∧
+    (∀ j, e < j → j < s.texts.length → ¬ (j = e + 1 ∧ isComment s.cfg (s.texts.getD j []) = true) →
+      parentOf s'.tree (j + 1) = shiftAfter e (parentOf s.tree j)) := by
+  obtain ⟨_, _, _, idx, h4, _⟩ := step_appendToFamily_ok s i txt ind ai hok
+  have h1 := (appendIndex_child_level _ _ _ _ idx hk h4 h0).2
+  exact appendToFamily_keeps_parents s i txt ind ai hd hinv ha hig hp hok hk h0 hb hm hxc
+    (appendToFamily_children_width1 s i _ hd hinv hig hp hw h1)
 
 /-- **Same-indent append to a target that has children — known finding F10b.**  Intended
 (and what the property asks for): the line goes after the whole family, i.e. at
@@ -560,6 +733,15 @@ example : posOf exOn.items 0 = some 0 ∧
 example : allChildren exOn.tree 1 = [2] ∧ allChildren exOn.tree 0 = [1, 2, 3] ∧
     (step exOn (.delete 1)).1.texts =
       ["interface Eth1".toList, " shutdown".toList, "interface Eth10".toList] := by decide
+/-- `delete_keeps_parents` on an example: deleting line 1 (and its child 2) — `shutdown`
+moves from 3 to 1 and keeps parent 0, `Eth10` moves from 4 to 2 and stays a root -/
+example : rank (fun j => !(descendantsAndSelf exOn.tree 1).contains j) 3 = 1 ∧
+    rank (fun j => !(descendantsAndSelf exOn.tree 1).contains j) 4 = 2 ∧
+    (step exOn (.delete 1)).1.tree.parents = [0, 0, 2] := by decide
+/-- the exclusion is needed: a comment that was a root because it sat under a deeper line
+gets attached when that line is deleted -/
+example : let s := init exCfg true 1 ["r".toList, " a".toList, "  b".toList, " !x".toList]
+    s.tree.parents = [0, 0, 1, 3] ∧ (step s (.delete 2)).1.tree.parents = [0, 0, 0] := by decide
 /-- replace_text / re_sub on line 4; an unchanged substitution is a no-op -/
 example : (step exOn (.replaceText 4 "Eth1".toList "Po".toList)).1.texts[4]? = some "interface Po0".toList ∧
     (step exOn (.reSub 4 "interface Po1".toList)).1.texts[4]? = some "interface Po1".toList ∧
@@ -571,6 +753,21 @@ example : children exOn.tree 0 = [1, 3] ∧ familyEndpoint exOn.tree 0 = 3 ∧
     (step exOn (.appendToFamily 0 " mtu 9000".toList (-1) false)).1.texts =
       ["interface Eth1".toList, " ip address 1.1.1.1".toList, "  secondary".toList, " shutdown".toList,
        " mtu 9000".toList, "interface Eth10".toList] := by decide
+/-- the hypotheses of `appendToFamily_keeps_parents_width1` hold for this append, and its
+conclusion read off: new line 4 is a child of 0, `Eth10` (old 4, new 5) is still a root -/
+example : Plain exOn.cfg exOn.texts ∧ exOn.width = 1 ∧
+    isBannerStart " mtu 9000".toList = false ∧ isMacroStart " mtu 9000".toList = false ∧
+    isComment exOn.cfg " mtu 9000".toList = false ∧
+    (step exOn (.appendToFamily 0 " mtu 9000".toList (-1) false)).1.tree.parents = [0, 0, 1, 0, 0, 5] ∧
+    exOn.tree.parents = [0, 0, 1, 0, 4] := by
+  refine ⟨⟨by decide, fun _ => by decide⟩, by decide⟩
+/-- the exclusion is needed: a comment directly after the insertion point that was a root
+(it sat under a deeper line) becomes a child of the target when the new line is put above it -/
+example : let s := init exCfg true 1 ["a".toList, " b".toList, "  c".toList, " !x".toList, "d".toList]
+    s.tree.parents = [0, 0, 1, 3, 4] ∧ familyEndpoint s.tree 0 = 2 ∧
+    (step s (.appendToFamily 0 " n".toList (-1) false)).1.texts
+      = ["a".toList, " b".toList, "  c".toList, " n".toList, " !x".toList, "d".toList] ∧
+    (step s (.appendToFamily 0 " n".toList (-1) false)).1.tree.parents = [0, 0, 1, 0, 0, 5] := by decide
 /-- **F10b**: a same-indent append to line 0 lands at `0 + |children| = 2`, between
 ` ip address` and its child `  secondary`, which is thereby re-parented by the commit -/
 example : cfi 1 (indentOf exOn.tree 0) (familyText (indentOf exOn.tree 0) 1 "interface Eth2".toList (-1) false) = some 0 ∧
